@@ -3,8 +3,9 @@
 From Coq Require Import PeanoNat Arith Lia.
 From AV Require Import Base.Bytes Base.Outcome Hash.HashModel Tree.Heap Tree.Ops Tree.Script Tree.Inv
   Tree.InvProofsBase Tree.InvProofsCore Tree.InvProofsPrim Tree.InvProofs Tree.Sort Tree.Copy Tree.Compat Tree.Serialize
-  Tree.Load Tree.Script2 Tree.InvLoad Tree.InvProofsOp2 Tree.InvProofsLoadBase Tree.InvProofsLoad Tree.InvProofsLoadRej.
-From AV Require Xml.Parser.
+  Tree.Load Tree.Script2 Tree.InvLoad Tree.InvProofsOp2 Tree.InvProofsLoadBase Tree.InvProofsLoad Tree.InvProofsLoadRej
+  Tree.InvProofsReal Tree.InvEBase Tree.InvProofsLoadLive Tree.InvProofsOp2Lift Tree.InvProofsOp2Live.
+From AV Require Xml.Parser Xml.TablesOk Tree.InvProofsLoadParser.
 Open Scope string_scope.
 Open Scope list_scope.
 Open Scope N_scope.
@@ -69,6 +70,66 @@ Proof.
   - apply andb_prop in Hc as (Hk & Hc). apply negb_true_iff in Hk.
     destruct (run2 o w) as [[r w1]| |] eqn:E; try discriminate H.
     eapply IH; [|exact Hc|exact H]. eapply Core_step2_full; eauto.
+Qed.
+
+(* ---------- RealInvL over the whole alphabet: rejected loads included ---------- *)
+Theorem RealInvL_load_full m buffer filename strict w r w' :
+  TablesOk.tables_ok T = true -> RealInvL T w -> KShared w (OpLoad m buffer filename strict) = false ->
+  m_load_buffer T tab_el tab_at tab_en check_fn float_parse LATEST name_definition_ref m buffer filename strict w = Val (r, w') ->
+  RealInvL T w'.
+Proof.
+  intros OK I Hs H. unfold m_load_buffer in H.
+  bstep H x wx E0; [|apply get_model_inv in E0 as (? & _ & [=] & _)]. apply get_model_inv in E0 as (x' & Hx & [= ->] & ->).
+  bstep H w0 wx E1; [|apply wget_inv in E1 as ([=] & _)]. apply wget_inv in E1 as ([= ->] & ->).
+  destruct (existsb _ _); [apply wfail_inv in H as (_ & ->); exact I|].
+  unfold Known_load_shared, load_merge_point in Hs.
+  destruct (Parser.load strict T tab_el tab_at tab_en check_fn float_parse buffer) as [[root st|pe st]| |] eqn:EP;
+    try discriminate H.
+  2:{ apply wfail_inv in H as (_ & ->). exact I. }
+  destruct (InvProofsLoadParser.load_tree_facts T tab_el tab_at tab_en check_fn float_parse strict buffer root st OK EP) as (EC & ERf).
+  assert (G : forall r0 w0, load_parsed T LATEST name_definition_ref m filename root st w = Val (r0, w0) -> RealInvL T w0).
+  { intros r0 w0 HL. eapply (load_parsed_real_full T LATEST name_definition_ref m filename root st w r0 w0 I EC ERf); [|exact HL].
+    intros t w1 x1 Ei w2 Hx1 Hfirst. rewrite Ei in Hs. fold w2 in Hs. rewrite Hx1, Hfirst in Hs. exact Hs. }
+  bstep H f0 wx E2.
+  - apply wret_inv in H as (_ & ->). eapply G; eauto.
+  - eapply G; eauto.
+Qed.
+
+Notation KReal2 := (Known_real2 T tab_el tab_at tab_en check_fn float_parse float_fmt LATEST name_index name_definition_ref
+                                attr_schema_location root_attrs).
+
+Theorem RealInvL_step2_full o w r w' :
+  RefChars T -> TablesOk.tables_ok T = true -> RealInvL T w ->
+  KReal2 w o = false -> KShared w o = false -> run2 o w = Val (r, w') -> RealInvL T w'.
+Proof.
+  intros RC OK I HK HL H.
+  destruct o as [o1| | |m0|m0 buffer filename strict| | | |];
+    try (eapply (RealInvL_step2 T tab_el tab_at tab_en check_fn float_parse float_fmt LATEST name_index name_definition_ref
+                                attr_schema_location root_attrs); eauto; reflexivity).
+  cbn [run_op2] in H.
+  apply wbind_inv in H as [([f ws] & w1 & H1 & H2) | (e & H1 & ->)].
+  - apply wret_inv in H2 as (_ & ->). eapply RealInvL_load_full; eauto.
+  - eapply RealInvL_load_full; eauto.
+Qed.
+
+Fixpoint clean_ops2_full (l : list op2) (w : world) : bool :=
+  match l with
+  | [] => true
+  | o :: r => negb (KReal2 w o) && negb (KShared w o) &&
+              match run2 o w with Val (_, w') => clean_ops2_full r w' | _ => true end
+  end.
+
+Theorem RealInvL_histories2_full l : forall w w',
+  RefChars T -> TablesOk.tables_ok T = true -> RealInvL T w -> clean_ops2_full l w = true ->
+  run_ops2 T tab_el tab_at tab_en check_fn float_parse float_fmt LATEST name_index name_definition_ref
+           attr_schema_location root_attrs l w = Val w' -> RealInvL T w'.
+Proof.
+  induction l as [|o l IH]; intros w w' RC OK I Hc H; cbn [run_ops2 clean_ops2_full] in *.
+  - injection H as <-. exact I.
+  - apply andb_prop in Hc as (Hc1 & Hc). apply andb_prop in Hc1 as (Hk & Hl).
+    apply negb_true_iff in Hk. apply negb_true_iff in Hl.
+    destruct (run2 o w) as [[r w1]| |] eqn:E; try discriminate H.
+    eapply IH; [exact RC|exact OK| |exact Hc|exact H]. eapply RealInvL_step2_full; eauto.
 Qed.
 
 End Op2Rej.
